@@ -16,7 +16,7 @@ func (p *prop) Generate(rng *core.Rand, tier string, emit func(string)) {
 	if p.corpus == nil {
 		p.corpus = loadCorpus()
 	}
-	nSort, nSite, nMut, nGram, nRaw, nLeak := 12000, 700, 1500, 700, 400, 60
+	nSort, nSite, nMut, nGram, nRaw, nLeak := 30000, 2500, 6000, 3000, 1500, 300
 	switch tier {
 	case "thorough":
 		nSort, nSite, nMut, nGram, nRaw, nLeak = 200000, 8000, 30000, 12000, 5000, 600
@@ -102,6 +102,17 @@ func (p *prop) Generate(rng *core.Rand, tier string, emit func(string)) {
 // stream besides corpus/C16 so that they are exercised under every seed.
 var regressionTexts = []string{
 	":80 {\n\thandle_errors {\n\t\trespond \"x\"\n\t}\n\thandle_errors 4xx {\n\t}\n}\n",
+	// import expansion and cycle detection (snippets and the files next to the working directory)
+	"(a) {\n\timport a\n}\n:80 {\n\timport a\n}\n",
+	"(a) {\n\timport b\n}\n(b) {\n\timport a\n}\n:80 {\n\timport a\n}\n",
+	":80 {\n\timport ../inc/self\n}\n",
+	":80 {\n\timport ../inc/a\n}\n",
+	":80 {\n\timport ../inc/ok\n\timport ../inc/ok\n}\n",
+	"import ../inc/snip\n:80 {\n\timport incsnip \"hi\"\n}\n",
+	"import ../inc/site\n:80 {\n\timport ../inc/empty\n\timport ../inc/*\n}\n",
+	"import ../inc/s*\n",
+	"(a) {\n\t{block}\n}\n:80 {\n\timport a {\n\t\timport a {\n\t\t\trespond x\n\t\t}\n\t}\n}\n",
+	":80 {\n\timport *\n\timport nosuchfile\n}\n",
 }
 
 func genSortCase(r *core.Rand, order []string) string {
